@@ -64,6 +64,18 @@ type Replay struct {
 	Hash     string          `json:"sched_hash"`
 	Trace    []string        `json:"trace,omitempty"`
 	Config   string          `json:"config,omitempty"` // informational: the generated configuration / world parameters
+	// History, when set: the violation depends on what earlier runs left behind in the worker process (package-level
+	// state of the program under test); the replay re-executes the runs StartIndex..Index of that worker in order
+	// and judges the last one.
+	History *History `json:"history,omitempty"`
+}
+
+type History struct {
+	SeedBase   uint64 `json:"seed_base"`
+	Stride     int    `json:"stride"`
+	Offset     int    `json:"offset"`
+	StartIndex int    `json:"start_index"`
+	Index      int    `json:"index"`
 }
 
 // Vio is a violation found by a run.
@@ -351,6 +363,26 @@ func WorkerMain(t *testing.T) {
 	if job.DigestOut != "" {
 		digest, _ = os.Create(job.DigestOut)
 		defer digest.Close()
+	}
+	if job.Replay != nil && job.Replay.History != nil {
+		h := job.Replay.History
+		for idx := h.StartIndex; idx <= h.Index; idx++ {
+			seed := h.SeedBase + uint64(idx*h.Stride+h.Offset)
+			curJob, curOut, curSeed, curIdx = &job, out, seed, idx
+			pendingVio, pendingRp = nil, nil
+			atomicRunCounter.Add(1)
+			ro := withRaceCheck(fn, out)(t, &job, seed, nil)
+			out.Runs++
+			if ro.Infra != "" {
+				out.Infra = append(out.Infra, ro.Infra)
+				break
+			}
+			if idx == h.Index && ro.Vio != nil {
+				out.Violations = append(out.Violations, VioRec{Seed: seed, Vio: *ro.Vio})
+			}
+		}
+		finish(true, -1)
+		return
 	}
 	if job.Replay != nil {
 		curJob, curOut, curSeed, curIdx = &job, out, job.Replay.Seed, 0
